@@ -22,7 +22,8 @@ TIE_IS_SPEC = True
 SITES = ["C01.plumb.mse", "C01.plumb.mae", "C01.plumb.additive_bias", "C01.plumb.multiplicative_bias", "C01.plumb.pbias", "C01.plumb.quantile_score",
          "C01.plumb.quantile_interval_score", "C01.plumb.consistent_expectile_score", "C01.plumb.consistent_huber_score",
          "C01.plumb.consistent_quantile_score", "C01.plumb.crps_for_ensemble", "C01.plumb.brier_score_for_ensemble", "C01.plumb.murphy_score",
-         "C01.plumb.firm", "C01.plumb.probability_of_detection", "C01.plumb.probability_of_false_detection", "C01.plumb.crps_cdf"]
+         "C01.plumb.firm", "C01.plumb.probability_of_detection", "C01.plumb.probability_of_false_detection", "C01.plumb.crps_cdf", "C01.plumb.crps_cdf_brier_decomposition", "C01.plumb.risk_matrix_score", "C01.plumb.contingency_counts",
+         "C01.plumb.pearsonr", "C01.plumb.kge"]
 RULE = ("rule: every configuration (fcst dims, obs dims, weights dims|None, reduce, preserve, score-specific) over a universe of names, "
         "requests in every spelling (None, 'all', bare string, list incl. empty, absent name, both options); public functions: random "
         "labelled arrays x every subset R of the data dims x spellings. distinct = distinct configuration / call; non-trivial = the "
@@ -227,7 +228,8 @@ def recipe_functions(ctx):
                 # the function does not accept a weights-only dimension at all (it raises for every request): out of scope
                 ctx.count("weights_only_dim_unsupported:" + rc.name)
                 continue
-            ok, why = scorelib.same_result(call(None, None), call("all", None))
+            call_first = call(None, None)
+            ok, why = scorelib.same_result(call_first, call("all", None))
             ctx.case((rc.name, "none=all", desc))
             if not ok:
                 ctx.violation(f"{rc.name}: omitting both options differs from reduce_dims='all': {why}", desc, "equal", why)
@@ -267,6 +269,27 @@ def recipe_functions(ctx):
             for bad in (call(["zz"], None), call(None, ["zz"])):
                 if bad != ("err", "err:ValueError"):
                     ctx.violation(f"{rc.name}: naming a dimension that is not in the data does not raise ValueError", desc, "err:ValueError", str(bad[1])[:100])
+            # history independence: the rule is a function of the names it is given. After the public function has been
+            # exercised on these inputs, gather_dimensions asked directly about the same dimension tuples must still
+            # give the plain answers (a cache shared with a caller that edits the returned set in place would not)
+            U = utils()
+            fd, od = tuple(xs[0].dims), tuple(xs[1].dims) if len(xs) > 1 and hasattr(xs[1], "dims") else ()
+            union = set(fd) | set(od)
+            probes = [({}, union), ({"reduce_dims": "all"}, union), ({"preserve_dims": "all"}, set())]
+            for d in list(union)[:2]:
+                probes += [({"preserve_dims": [d]}, union - {d}), ({"reduce_dims": [d]}, {d}), ({"preserve_dims": d}, union - {d})]
+            for kwg, want in probes:
+                for rep in (tuple, list):
+                    got = core.call_impl(U.gather_dimensions, rep(fd), rep(od), **kwg)
+                    ctx.case((rc.name, "gather-after", fd, od, repr(kwg), rep.__name__))
+                    if got[0] != "ok" or set(got[1]) != want:
+                        ctx.violation(f"gather_dimensions({list(fd)}, {list(od)}, {kwg}) asked after {rc.name} ran on arrays with these dimensions "
+                                      f"returns {sorted(got[1]) if got[0] == 'ok' else got[1]}, not {sorted(want)}",
+                                      dict(desc, after="the calls of this function listed in the other predicates", gather_kwargs=kwg), sorted(want), str(got[1]))
+            again = call(None, None)
+            ok, why = scorelib.same_result(call_first, again)
+            if not ok:
+                ctx.violation(f"{rc.name}: the same call gives a different result when repeated after other requests: {why}", desc, "identical", why)
 
 
 def manager_multistep(ctx):
